@@ -90,8 +90,11 @@ class ClsMethod:
 
 
 class Closure:
-    def __init__(self, node, env, module, owner):
-        self.node, self.env, self.module, self.owner = node, env, module, owner
+    def __init__(self, node, env, module, owner, interp=None):
+        self.node, self.env, self.module, self.owner, self.interp = node, env, module, owner, interp
+
+    def __call__(self, *a, **k):      # so that host functions (list.sort(key=...)) can call analysed lambdas
+        return self.interp.call_closure(self, list(a), k)
 
 
 class BT:
@@ -104,6 +107,15 @@ class BT:
 
     def __repr__(self):
         return f"<type {self.name}>"
+
+
+class TypeFn:
+    """the builtin `type`: callable with one argument, usable in isinstance(x, type)"""
+    def __init__(self, interp):
+        self.interp = interp
+
+    def __call__(self, v):
+        return self.interp.builtin("type_")(v)
 
 
 class Marker:
@@ -816,6 +828,8 @@ class Interp:
                 o.f[n] = v
             return sa
         if name == "type":
+            return TypeFn(self)
+        if name == "type_":
             def ty(v):
                 if isinstance(v, Obj):
                     return v.cls
@@ -898,6 +912,9 @@ class Interp:
                     return True
             elif isinstance(x, ExcClass):
                 if isinstance(v, (PyRaise,)) and v.isa(x.name):
+                    return True
+            elif isinstance(x, TypeFn):
+                if isinstance(v, (ClassInfo, BT, TypeFn)):
                     return True
             elif isinstance(x, Marker):
                 continue
@@ -1116,7 +1133,7 @@ class Interp:
             if not self.truth(self.eval(s.test, fr)):
                 raise PyRaise("AssertionError", s, "assertion failed", where=self.stack[-1] if self.stack else "")
         elif isinstance(s, ast.FunctionDef):
-            fr.env[s.name] = Closure(s, fr.env, fr.module, fr.owner)
+            fr.env[s.name] = Closure(s, fr.env, fr.module, fr.owner, self)
         elif isinstance(s, ast.Delete):
             for t in s.targets:
                 if isinstance(t, ast.Subscript):
@@ -1370,12 +1387,16 @@ class Interp:
             return self.call_closure(f, args, kwargs)
         if isinstance(f, ExcClass):
             return ExcValue(f.name, args)
+        if isinstance(f, TypeFn):
+            return f(*args)
         if isinstance(f, BT):
             if f.ctor is None:
                 raise AnalysisAbort(f"call of {f!r}")
             return f.ctor(*args, **kwargs)
         if isinstance(f, ExtModule):
             return self.call_ext(f, args, kwargs, node)
+        if f is NDARRAY:        # np.ndarray(shape): an uninitialised array
+            return NP.zeros(self.as_shape(args[0] if args else kwargs.get("shape")), SymScalar(("sym", "uninitialised")), "np.ndarray")
         if isinstance(f, Marker):
             raise AnalysisAbort(f"call of {f!r} is not modelled")
         if callable(f):
@@ -1414,7 +1435,7 @@ class Interp:
         raise AnalysisAbort(f"call of external {f.name} is not modelled (line {getattr(node, 'lineno', '?')})")
 
     def e_Lambda(self, n, fr):
-        return Closure(n, fr.env, fr.module, fr.owner)
+        return Closure(n, fr.env, fr.module, fr.owner, self)
 
     def e_IfExp(self, n, fr):
         return self.eval(n.body if self.truth(self.eval(n.test, fr)) else n.orelse, fr)
